@@ -11,7 +11,7 @@ returns built from a constant payload the payload constant is kept in `ret_paylo
 from .terms import TermBuilder, fmt
 
 # external callees that only hand out an alias into their `&mut self` argument
-BORROWING = {"index_mut", "get_mut", "iter_mut", "as_mut", "deref_mut", "borrow_mut", "as_mut_slice", "entry",
+BORROWING = {"drain", "index_mut", "get_mut", "iter_mut", "as_mut", "deref_mut", "borrow_mut", "as_mut_slice", "entry",
              "first_mut", "last_mut", "get", "index", "iter", "deref", "borrow", "as_ref", "by_ref", "into_iter",
              "values_mut", "peek_mut"}
 # external callees taking `&mut X` that do not change the abstract contents we track
@@ -19,6 +19,21 @@ NON_MUTATING = {"next", "fmt", "hash", "write_str", "finish", "build_hasher", "w
 
 RESULT_TYS = ("std::result::Result<",)
 OPTION_TYS = ("std::option::Option<",)
+
+
+HANDLE_TYS = ("std::cell::RefMut<", "std::cell::Ref<", "std::collections::hash_map::Entry<",
+              "std::collections::hash_map::OccupiedEntry<", "std::collections::hash_map::VacantEntry<",
+              "std::collections::btree_map::Entry<", "std::vec::Drain<", "std::collections::hash_map::Drain<")
+
+
+def is_handle_ty(ty):
+    """by-value objects that carry a borrow of the structure they were obtained from"""
+    return ty.startswith(HANDLE_TYS)
+
+
+def is_mut_access_ty(ty):
+    return ty.startswith("&mut") or ty.startswith(("std::cell::RefMut<", "std::collections::hash_map::Entry<",
+                                                    "std::collections::hash_map::OccupiedEntry<", "std::collections::hash_map::VacantEntry<"))
 
 
 class Origin:
@@ -41,11 +56,12 @@ class Origins:
         self.fn = fn
         self._memo = {}
 
+    def _is_handle(self, l):
+        return is_handle_ty(self.fn.local_ty(l))
+
     def _is_ptr(self, l):
         ty = self.fn.local_ty(l)
-        return ty.startswith("&") or ty.startswith("*") or ty.startswith("std::cell::RefMut<") or ty.startswith("std::cell::Ref<") \
-            or ty.startswith("std::collections::hash_map::Entry<") or ty.startswith("std::collections::hash_map::OccupiedEntry<") \
-            or ty.startswith("std::collections::hash_map::VacantEntry<")
+        return ty.startswith("&") or ty.startswith("*") or is_handle_ty(ty)
 
     def of_local(self, l, stack=()):
         if l in self._memo:
@@ -108,6 +124,13 @@ class Origins:
         else:
             if value and not proj:
                 return self.of_local(base, stack)
+            if self._is_handle(base):
+                # a RefMut / Entry local: its memory *is* the borrowed structure for our purposes
+                o = self.of_local(base, stack)
+                if o is None:
+                    return None
+                names = []
+                return o
             if 1 <= base <= fn.arg_count:
                 o = Origin(("param", base))
             else:
@@ -161,7 +184,7 @@ def enum_kind_of_ty(ty):
 
 
 class Path:
-    __slots__ = ("blocks", "events", "ret", "ret_payload", "env", "exit_kind", "fn")
+    __slots__ = ("blocks", "events", "ret", "ret_payload", "env", "exit_kind", "fn", "state")
 
     def __init__(self):
         self.blocks = []
@@ -171,6 +194,7 @@ class Path:
         self.env = {}
         self.exit_kind = None
         self.fn = None
+        self.state = None
 
     def writes(self):
         return [e for e in self.events if e["kind"] == "write"]
@@ -182,7 +206,8 @@ class Path:
 class Summaries:
     """memoised per-function alternatives: list of (events, ret, ret_payload)"""
 
-    def __init__(self, prog, max_back=1, limit=20000):
+    def __init__(self, prog, max_back=1, limit=20000, collapse=False):
+        self.collapse = collapse
         self.prog = prog
         self.max_back = max_back
         self.limit = limit
@@ -205,10 +230,20 @@ class Summaries:
             for p in pe.paths():
                 if p.exit_kind != "return":
                     continue
-                evs = tuple(_freeze_event(e) for e in p.events if e["kind"] == "write")
+                ws = [e for e in p.events if e["kind"] == "write" and e["root"][0] == "param"]
+                if self.collapse:
+                    seen = set()
+                    ws2 = []
+                    for e in ws:
+                        fk = _freeze_event(e)
+                        if fk not in seen:
+                            seen.add(fk)
+                            ws2.append(e)
+                    ws = ws2
+                evs = tuple(_freeze_event(e) for e in ws)
                 k = (evs, p.ret, repr(p.ret_payload))
                 if k not in alts:
-                    alts[k] = ([e for e in p.events if e["kind"] == "write"], p.ret, p.ret_payload)
+                    alts[k] = (ws, p.ret, p.ret_payload)
             if pe.truncated:
                 self.truncated.add(key)
             out = list(alts.values())
@@ -219,10 +254,19 @@ class Summaries:
 
 
 def _freeze_event(e):
-    return (e["root"], e["path"], e["how"], e.get("callee"), e.get("origin_fn"))
+    return (e["root"], e["path"], e["how"], e.get("callee"), e.get("origin_fn"), e.get("bb"), e.get("idx"))
 
 
 class PathEnumerator:
+    """Enumerates CFG paths (normal edges, each back edge at most `max_back` times) with
+    path-sensitive tracking of constant locals / enum variants, inlining the summaries of
+    crate-local callees.
+
+    Two modes: `paths()` yields complete Path objects; `fold(init, step, on_exit)` threads a
+    hashable abstract state through the events and prunes program states already visited
+    (bb, state, tracked constants) — a small explicit-state exploration that stays cheap on
+    functions whose plain path count explodes (quotient-filter union)."""
+
     def __init__(self, fn, prog, summaries=None, max_back=1, limit=20000, inline=True):
         self.fn = fn
         self.prog = prog
@@ -235,118 +279,134 @@ class PathEnumerator:
         self.truncated = False
         self._count = 0
         self.back = set(fn.back_edges())
+        self._step = None
+        self._visited = None
+        self.explored_states = 0
 
     # ------------------------------------------------------------------------------
     def paths(self):
-        p = Path()
-        p.fn = self.fn
-        yield from self._walk(0, p, {}, {}, {})
+        self._step = None
+        self._visited = None
+        yield from self._walk(0, (), None, {}, {}, {}, None)
 
-    def _emit(self, p, kind):
+    def fold(self, init, step, on_exit):
+        """step(state, event) -> state ; on_exit(state, path) called for every distinct exit state"""
+        self._step = step
+        self._visited = set()
+        for q in self._walk(0, (), None, {}, {}, {}, init):
+            on_exit(q.state, q)
+
+    def _emit(self, blocks, evs, kind, env, state):
         q = Path()
         q.fn = self.fn
-        q.blocks = list(p.blocks)
-        q.events = list(p.events)
-        q.env = dict(p.env)
+        q.blocks = list(blocks)
+        out = []
+        while evs is not None:
+            out.append(evs[1])
+            evs = evs[0]
+        out.reverse()
+        q.events = out
+        q.env = dict(env)
         q.exit_kind = kind
-        q.ret = p.ret
-        q.ret_payload = p.ret_payload
+        q.state = state
         return q
 
-    def _walk(self, bb, p, env, cls, backcount):
-        """env: local -> int constant; cls: local -> variant class"""
+    def _push(self, evs, state, ev):
+        if self._step is not None:
+            state = self._step(state, ev)
+            if ev["kind"] != "write" and ev["kind"] != "call":
+                return evs, state
+        return (evs, ev), state
+
+    def _walk(self, bb, blocks, evs, env, cls, backcount, state):
+        """env: local -> int constant; cls: local -> (variant class, payload)"""
         if self._count > self.limit:
             self.truncated = True
             return
         fn = self.fn
+        if self._visited is not None:
+            vk = (bb, state, tuple(sorted(env.items())), tuple(sorted((k, v[0]) for k, v in cls.items())), tuple(sorted(backcount.items())))
+            if vk in self._visited:
+                return
+            self._visited.add(vk)
+            self.explored_states += 1
         blk = fn.blocks[bb]
-        p.blocks.append(bb)
-        n_events = len(p.events)
+        blocks = blocks + (bb,)
         env = dict(env)
         cls = dict(cls)
-        # statements
         for si, st in enumerate(blk.stmts):
             if st.k == "assign":
-                self._assign(st, bb, si, p, env, cls)
-            elif st.k == "setdiscr":
-                pass
+                ev = self._assign(st, bb, si, env, cls)
+                if ev is not None:
+                    evs, state = self._push(evs, state, ev)
         t = blk.term
         k = t.k
-        try:
-            if k == "return":
-                self._count += 1
-                q = self._emit(p, "return")
-                q.env = env
-                rty = enum_kind_of_ty(fn.local_ty(0)) or ("bool" if fn.local_ty(0) == "bool" else None)
-                if 0 in cls:
-                    q.ret = cls[0][0]
-                    q.ret_payload = cls[0][1]
-                elif rty == "bool" and 0 in env:
-                    q.ret = "true" if env[0] else "false"
-                yield q
-                return
-            if k in ("unreachable", "resume", "terminate", "other"):
-                self._count += 1
-                yield self._emit(p, "diverge")
-                return
-            if k == "goto":
-                yield from self._next(bb, t.j["target"], p, env, cls, backcount)
-                return
-            if k == "drop":
-                yield from self._next(bb, t.j["target"], p, env, cls, backcount)
-                return
-            if k == "assert":
-                p.events.append({"kind": "assert", "bb": bb, "akind": t.j["kind"], "span": t.span})
-                yield from self._next(bb, t.j["target"], p, env, cls, backcount)
-                return
-            if k == "switch":
-                d = t.discr
-                val = None
-                if d.place is not None and d.place.is_local() and d.place.local in env:
-                    val = env[d.place.local]
-                elif d.k == "const":
-                    v = d.value()
-                    val = int(v) if v is not None else None
-                arms = [(int(v), b) for v, b in t.j["arms"]]
-                other = t.j["otherwise"]
-                if val is not None:
-                    tgt = other
-                    for v, b in arms:
-                        if v == val:
-                            tgt = b
-                    yield from self._next(bb, tgt, p, env, cls, backcount)
-                    return
-                dl = d.place.local if (d.place is not None and d.place.is_local()) else None
-                taken = set()
+        if k == "return":
+            self._count += 1
+            q = self._emit(blocks, evs, "return", env, state)
+            rty = enum_kind_of_ty(fn.local_ty(0)) or ("bool" if fn.local_ty(0) == "bool" else None)
+            if 0 in cls:
+                q.ret = cls[0][0]
+                q.ret_payload = cls[0][1]
+            elif rty == "bool" and 0 in env:
+                q.ret = "true" if env[0] else "false"
+            if self._step is not None:
+                q.state = self._step(state, {"kind": "return", "ret": q.ret, "ret_payload": q.ret_payload, "bb": bb, "span": t.span})
+            yield q
+            return
+        if k in ("unreachable", "resume", "terminate", "other"):
+            self._count += 1
+            yield self._emit(blocks, evs, "diverge", env, state)
+            return
+        if k in ("goto", "drop"):
+            yield from self._next(bb, t.j["target"], blocks, evs, env, cls, backcount, state)
+            return
+        if k == "assert":
+            evs2, state2 = self._push(evs, state, {"kind": "assert", "bb": bb, "akind": t.j["kind"], "span": t.span})
+            yield from self._next(bb, t.j["target"], blocks, evs2, env, cls, backcount, state2)
+            return
+        if k == "switch":
+            d = t.discr
+            val = None
+            if d.place is not None and d.place.is_local() and d.place.local in env:
+                val = env[d.place.local]
+            elif d.k == "const":
+                v = d.value()
+                val = int(v) if v is not None else None
+            arms = [(int(v), b) for v, b in t.j["arms"]]
+            other = t.j["otherwise"]
+            if val is not None:
+                tgt = other
                 for v, b in arms:
-                    e2 = dict(env)
-                    if dl is not None:
-                        e2[dl] = v
-                    p.events.append({"kind": "branch", "bb": bb, "local": dl, "value": v})
-                    c2 = self._refine_cls(bb, dl, v, cls)
-                    yield from self._next(bb, b, p, e2, c2, backcount)
-                    del p.events[-1]
-                    taken.add(v)
-                # otherwise arm
-                if not fn.blocks[other].term.k == "unreachable" or fn.blocks[other].stmts:
-                    e2 = dict(env)
-                    ov = None
-                    if dl is not None and fn.local_ty(dl) == "bool" and taken == {0}:
-                        ov = 1
-                        e2[dl] = 1
-                    p.events.append({"kind": "branch", "bb": bb, "local": dl, "value": ov if ov is not None else "otherwise"})
-                    c2 = self._refine_cls(bb, dl, ov, cls) if ov is not None else cls
-                    yield from self._next(bb, other, p, e2, c2, backcount)
-                    del p.events[-1]
+                    if v == val:
+                        tgt = b
+                yield from self._next(bb, tgt, blocks, evs, env, cls, backcount, state)
                 return
-            if k == "call":
-                yield from self._call(bb, t, p, env, cls, backcount)
-                return
-        finally:
-            del p.events[n_events:]
-            p.blocks.pop()
+            dl = d.place.local if (d.place is not None and d.place.is_local()) else None
+            taken = set()
+            for v, b in arms:
+                e2 = dict(env)
+                if dl is not None:
+                    e2[dl] = v
+                evs2, state2 = self._push(evs, state, {"kind": "branch", "bb": bb, "local": dl, "value": v, "span": t.span})
+                c2 = self._refine_cls(bb, dl, v, cls)
+                yield from self._next(bb, b, blocks, evs2, e2, c2, backcount, state2)
+                taken.add(v)
+            if not (fn.blocks[other].term.k == "unreachable" and not fn.blocks[other].stmts):
+                e2 = dict(env)
+                ov = None
+                if dl is not None and fn.local_ty(dl) == "bool" and taken == {0}:
+                    ov = 1
+                    e2[dl] = 1
+                evs2, state2 = self._push(evs, state, {"kind": "branch", "bb": bb, "local": dl, "value": ov if ov is not None else "otherwise", "span": t.span})
+                c2 = self._refine_cls(bb, dl, ov, cls) if ov is not None else cls
+                yield from self._next(bb, other, blocks, evs2, e2, c2, backcount, state2)
+            return
+        if k == "call":
+            yield from self._call(bb, t, blocks, evs, env, cls, backcount, state)
+            return
 
-    def _next(self, frm, to, p, env, cls, backcount):
+    def _next(self, frm, to, blocks, evs, env, cls, backcount, state):
         if self.fn.blocks[to].cleanup:
             return
         if (frm, to) in self.back:
@@ -355,7 +415,7 @@ class PathEnumerator:
                 return
             backcount = dict(backcount)
             backcount[(frm, to)] = c + 1
-        yield from self._walk(to, p, env, cls, backcount)
+        yield from self._walk(to, blocks, evs, env, cls, backcount, state)
 
     # ------------------------------------------------------------------------------
     def _refine_cls(self, bb, dl, v, cls):
@@ -385,7 +445,7 @@ class PathEnumerator:
         if c is not None:
             cls[l] = c
 
-    def _assign(self, st, bb, si, p, env, cls):
+    def _assign(self, st, bb, si, env, cls):
         fn = self.fn
         pl = st.place
         rv = st.rv
@@ -445,21 +505,25 @@ class PathEnumerator:
                 elif opn == "BitOr" and (a == 1 or b == 1):
                     val = 1
             self._set_local(l, env, cls, val, c)
-            return
+            return None
         # store through a projection: is it a write into memory rooted at a parameter / tracked local?
         o = self.origins.of_place(pl)
         if o is not None and (o.root[0] == "param" or pl.proj and pl.proj[0]["k"] == "deref"):
-            p.events.append({
-                "kind": "write", "root": o.root, "path": o.path, "how": "store", "callee": None,
-                "value": self.tb.rvalue(rv, bb, si), "args": [], "bb": bb, "idx": si, "span": st.span,
-                "origin_fn": self.fn.key, "place": str(pl),
-            })
+            src = None
+            if rv.k == "use" and rv.ops[0].place is not None and rv.ops[0].place.is_local():
+                src = rv.ops[0].place.local
+            return {
+                "kind": "write", "root": o.root, "path": o.path, "how": "store", "callee": None, "name": None,
+                "value": self.tb.rvalue(rv, bb, si), "value_local": src, "args": [], "bb": bb, "idx": si, "span": st.span,
+                "origin_fn": self.fn.key, "place": str(pl), "via": (),
+            }
         elif o is not None and o.root[0] == "local":
             # field store into a local aggregate: kills what we know about it
             self._set_local(o.root[1], env, cls)
+        return None
 
     # ------------------------------------------------------------------------------
-    def _call(self, bb, t, p, env, cls, backcount):
+    def _call(self, bb, t, blocks, evs, env, cls, backcount, state):
         fn = self.fn
         idx = len(fn.blocks[bb].stmts)
         name = t.callee_name()
@@ -483,7 +547,7 @@ class PathEnumerator:
 
         ev = {"kind": "call", "callee": callee, "decl": decl, "name": name, "local": t.callee_is_local(),
               "args": args, "dest": dest, "bb": bb, "span": t.span, "ret": None, "ret_payload": None,
-              "ptr_args": ptr_args, "term": t}
+              "ptr_args": ptr_args, "term": t, "origin_fn": fn.key}
 
         alts = None
         if self.inline and self.summ is not None and t.callee_is_local() and self.prog.fn(callee) is not None:
@@ -491,23 +555,21 @@ class PathEnumerator:
 
         if alts is not None:
             if not alts:
-                # callee never returns normally
                 if target is None:
                     self._count += 1
-                    p.events.append(ev)
-                    yield self._emit(p, "diverge")
-                    del p.events[-1]
+                    evs2, state2 = self._push(evs, state, ev)
+                    yield self._emit(blocks, evs2, "diverge", env, state2)
                 return
             for (wevs, ret, payload) in alts:
                 e2 = dict(ev)
                 e2["ret"] = ret
                 e2["ret_payload"] = payload
-                n0 = len(p.events)
-                p.events.append(e2)
+                evs2, state2 = self._push(evs, state, e2)
                 for w in wevs:
                     rb = self._rebase(w, ptr_args, t)
                     if rb is not None:
-                        p.events.append(rb)
+                        evs2, state2 = self._push(evs2, state2, rb)
+                evs2, state2 = self._push(evs2, state2, {"kind": "callend", "callee": callee, "name": name, "bb": bb, "ret": ret, "span": t.span})
                 env2, cls2 = dict(env), dict(cls)
                 if dest is not None:
                     val = None
@@ -519,30 +581,28 @@ class PathEnumerator:
                     self._set_local(dest, env2, cls2, val, c)
                 if target is None:
                     self._count += 1
-                    yield self._emit(p, "diverge")
+                    yield self._emit(blocks, evs2, "diverge", env2, state2)
                 else:
-                    yield from self._next(bb, target, p, env2, cls2, backcount)
-                del p.events[n0:]
+                    yield from self._next(bb, target, blocks, evs2, env2, cls2, backcount, state2)
             return
 
         # external / opaque callee ------------------------------------------------
-        n0 = len(p.events)
-        p.events.append(ev)
+        evs2, state2 = self._push(evs, state, ev)
         for i, pa in enumerate(ptr_args):
             if pa is None:
                 continue
             ty, o = pa
             if ty is None or o is None:
                 continue
-            if not ty.startswith("&mut"):
+            if not is_mut_access_ty(ty):
                 continue
             if name in NON_MUTATING:
                 continue
             how = "borrow" if name in BORROWING else "call"
-            if o.root[0] == "param" or True:
-                p.events.append({"kind": "write", "root": o.root, "path": o.path, "how": how, "callee": callee,
-                                 "name": name, "args": args, "value": None, "bb": bb, "idx": idx, "span": t.span,
-                                 "origin_fn": self.fn.key, "argi": i})
+            evs2, state2 = self._push(evs2, state2, {
+                "kind": "write", "root": o.root, "path": o.path, "how": how, "callee": callee,
+                "name": name, "args": args, "value": None, "bb": bb, "idx": idx, "span": t.span,
+                "origin_fn": self.fn.key, "argi": i, "via": ()})
         env2, cls2 = dict(env), dict(cls)
         forks = [(None, None)]
         if dest is not None:
@@ -575,10 +635,11 @@ class PathEnumerator:
                     cls2[dest] = ("Err", None)
                 elif kind == "option":
                     cls2[dest] = ("None", None)
+            elif name == "entry" and decl.endswith("HashMap::entry"):
+                forks = [("cls", ("Occupied",)), ("cls", ("Vacant",))]
         if target is None:
             self._count += 1
-            yield self._emit(p, "diverge")
-            del p.events[n0:]
+            yield self._emit(blocks, evs2, "diverge", env2, state2)
             return
         for fk in forks:
             e3, c3 = dict(env2), dict(cls2)
@@ -588,11 +649,14 @@ class PathEnumerator:
                 kind = enum_kind_of_ty(fn.local_ty(srcl))
                 if kind == "result":
                     c3[srcl] = ("Ok" if fk[1][0] == "Continue" else "Err", None)
+                elif kind == "option":
+                    c3[srcl] = ("Some" if fk[1][0] == "Continue" else "None", None)
+            elif fk[0] == "cls":
+                c3[dest] = (fk[1][0], None)
             elif fk[0] is not None:
                 e3[dest] = fk[0]
                 c3[fk[1][0]] = (fk[1][1], cls.get(fk[1][0], (None, None))[1])
-            yield from self._next(bb, target, p, e3, c3, backcount)
-        del p.events[n0:]
+            yield from self._next(bb, target, blocks, evs2, e3, c3, backcount, state2)
 
     def _pointee_local(self, place):
         """for `&_x` passed as an argument: the local x"""
@@ -620,7 +684,6 @@ class PathEnumerator:
         e["root"] = o.root
         e["path"] = o.path + w["path"]
         e["via"] = (t.callee(),) + w.get("via", ())
-        e["bb_caller"] = None
         return e
 
 
